@@ -2429,15 +2429,17 @@ fn node_glue(tier: Tier, shard: usize, n: usize) -> Report {
 		std::fs::create_dir_all(udir.join(d)).expect("universe dir");
 	}
 	let u = build_mc(&udir, tier, &sc);
-	let alpha = glue_alphabet(&u, tier);
-	let depth: usize = tier.pick(3, 4);
+	// quick: every sequence of 3 operations over the quick alphabet; thorough: every sequence of 3 over the larger
+	// alphabet, then every sequence of 4 over the quick one
+	let passes: Vec<(Vec<GOp>, usize)> = if tier == Tier::Quick { vec![(glue_alphabet(&u, Tier::Quick), 3)] } else { vec![(glue_alphabet(&u, Tier::Thorough), 3), (glue_alphabet(&u, Tier::Quick), 4)] };
 	if shard == 0 {
-		rep.extra.insert("alphabet".into(), json!(alpha.iter().map(|o| o.show(&u)).collect::<Vec<_>>()));
-		rep.extra.insert("bound_depth".into(), json!(depth));
+		rep.extra.insert("alphabets".into(), json!(passes.iter().map(|(al, d)| json!({"depth": d, "ops": al.iter().map(|o| o.show(&u)).collect::<Vec<_>>()})).collect::<Vec<_>>()));
+		rep.extra.insert("bound_depth".into(), json!(passes.iter().map(|p| p.1).max().unwrap_or(0)));
 	}
+	let mut mined: HashSet<String> = HashSet::new();
+	for (alpha, depth) in passes {
 	let a = alpha.len();
 	let total = a.pow(depth as u32);
-	let mut mined: HashSet<String> = HashSet::new();
 	let mut seen_prefix: HashSet<Vec<usize>> = HashSet::new();
 	for code in 0..total {
 		if !crate::par::mine(code as u64, shard, n) {
@@ -2476,6 +2478,7 @@ fn node_glue(tier: Tier, shard: usize, n: usize) -> Report {
 				}
 			}
 		}
+	}
 	}
 	rep
 }
